@@ -151,6 +151,7 @@ func main() {
 		selftestN = flag.Int("selftest", 2, "determinism self-test: replays of one recorded schedule")
 		failFast  = flag.Bool("fail-fast", false, "stop the remaining workers as soon as one reports a violation (mutant runs)")
 		budgetStr = flag.String("budgets", "", "worker mode: override the shard's budgets, e.g. \"0,0;1,0\" (-1 = unbounded)")
+		free      = flag.Int("free", 0, "supplementary pass: run every configuration of the tier N times FREE-RUNNING (real goroutines, shim in pass-through mode); build with -race")
 		choices   = flag.String("choices", "-", "with -config: run this comma separated choice list (may be empty) once and print the schedule")
 	)
 	flag.Parse()
@@ -163,6 +164,8 @@ func main() {
 		os.Exit(doReplay(*replay))
 	case *choices != "-":
 		os.Exit(doChoices(*config, *choices))
+	case *free > 0:
+		os.Exit(doFree(*tier, *config, *free))
 	case *worker:
 		os.Exit(doWorker(*config, *shard, *budgetStr, *deadline))
 	default:
